@@ -197,8 +197,15 @@ class UTPM(Ring, RawAlgorithmsMixIn):
         # print 'x=', x
         # print 'xr=',xr
         # print 'x.dtype', x.dtype
-        D,P = xr[0].data.shape[:2]
-        shp = xr[0].data.shape[2:]
+        # the prototype is the first element that is a polynomial (constants
+        # may come first)
+        first = xr[0]
+        for xi in xr:
+            if isinstance(xi, UTPM):
+                first = xi
+                break
+        D,P = first.data.shape[:2]
+        shp = first.data.shape[2:]
 
         if not isinstance(shp, tuple): shp = (shp,)
         if not isinstance(x_shp, tuple): x_shp = (x_shp,)
